@@ -55,6 +55,7 @@ class Engine:
         self.stats = {"quick_sat": 0, "quick_time": 0.0}
         self.inlined = {}
         self.assumptions_used = set()
+        self.used_lemmas = set()
 
     # ------------------------------------------------------------------ setup
     def load(self):
@@ -149,6 +150,8 @@ class Engine:
             r = self.specs.lookup(ex.specmod, name)
             if r is not None:
                 return self.wrap_spec_lookup(r)
+            if name in self.contracts.lemmas:
+                return Const("lemma", self.contracts.lemmas[name])
             if name == "implies":
                 return Const("pyfn", "implies")
             if name in ("True", "False", "None"):
